@@ -124,7 +124,7 @@ pub fn op_strategy(kind: Kind, a: u16, cap: usize, p: &Profile) -> BoxedStrategy
             ]
             .boxed(),
         ));
-        v.push((p.w_resize, prop_oneof![30 => (minr..=maxr).prop_map(Op::Resize), 1 => (65533u16..=65535).prop_map(Op::Resize)].boxed()));
+        v.push((p.w_resize, prop_oneof![30 => (minr..=maxr).prop_map(Op::Resize), 2 => (65528u16..=65535).prop_map(Op::Resize)].boxed()));
         v.push((
             p.w_or_put,
             prop_oneof![k().prop_map(Op::PeekOrPut), (k(), any::<bool>()).prop_map(|(k, w)| Op::PeekMutOrPut(k, w)), k().prop_map(Op::ContainsOrPut)].boxed(),
